@@ -23,3 +23,4 @@ Definition pes_Host : peset := {| ab := 33; bits := [35] |}.
 Definition pes_LaxPath : peset := {| ab := 33; bits := [34;35;63;96;123;125] |}.
 Definition pes_LaxQuery : peset := {| ab := 33; bits := [35;60;62] |}.
 Definition pes_RepeatedQuery : peset := {| ab := 33; bits := [35;37;38;61] |}.
+Definition pes_HostDecode : peset := {| ab := 33; bits := [35;47;58;60;62;63;64;91;92;93;94;124] |}.
